@@ -18,11 +18,11 @@ def OutB : Prop :=
     (Interp.step s = .pure d ∨ ∃ op k resp, Interp.step s = .host op k ∧ d = k resp) → d = .halt r out s' →
     out.length ≤ s'.mem.buffer.length
 
-/-- calldata / initcode is a slice of the memory -/
+/-- calldata / initcode is a slice of the memory, hence a Rust `Bytes` -/
 def InB : Prop :=
   ∀ (s : Interp.IState) (d : Interp.Done) a s', IInv s →
     (Interp.step s = .pure d ∨ ∃ op k resp, Interp.step s = .host op k ∧ d = k resp) → d = .action a s' →
-    dataLen a ≤ s'.mem.buffer.length
+    dataLen a ≤ ISZ
 
 theorem makeFrame_out (pco : PcOut) {cfg : Cfg} {w w' : World} {a : Interp.Action} {mem fr}
     (h : makeFrame journalOps cfg w a mem = .ok (fr, w')) (hs : StoreOk w) (hd : dataLen a ≤ ISZ) :
